@@ -36,10 +36,10 @@ def freeze (bound : Nat) (s : State) : State :=
     leader := s.leader, signer := fun j => sg.getD j Signer.init }
 
 /-- fair rounds until the designation is accepted (at most `fuel`) -/
-def bootLoop (n : Nat) (live : Nat → Bool) (lose : Bool) : Nat → Nat → Nat → State → BootResult
+def bootLoop (n : Nat) (live : Nat → Bool) (lose : Bool) (leaderFreshFirst : Bool := false) : Nat → Nat → Nat → State → BootResult
   | 0, k, w, _ => ⟨false, k, [], w⟩
   | fuel + 1, k, w, s =>
-    let env0 := fairEnv live (1000 + k)
+    let env0 : Env := { fairEnv live (1000 + k) with fresh := fun j => leaderFreshFirst && k == 0 && j == 0 }
     -- `lose`: the first designation transaction the leader sends is lost
     let isDes := match (leaderOut current n 5760 env0 s).2 with | .designate _ _ => true | .designateSolo => true | _ => false
     let env : Env := { env0 with dropDesignate := lose && isDes && !s.leader.tried }
@@ -53,10 +53,27 @@ def bootLoop (n : Nat) (live : Nat → Bool) (lose : Bool) : Nat → Nat → Nat
         | .designateSolo => [⟨0, ⟨0, 0⟩⟩]
         | _ => []
       ⟨true, k + 1, script, w'⟩
-    | none => bootLoop n live lose fuel (k + 1) w' s'
+    | none => bootLoop n live lose leaderFreshFirst fuel (k + 1) w' s'
 
 def runBoot (n : Nat) (liveL : List Nat) (lose : Bool := false) : BootResult :=
-  bootLoop n (fun j => liveL.contains j) lose 200 0 0 (State.init 10)
+  bootLoop n (fun j => liveL.contains j) lose false 200 0 0 (State.init 10)
+
+/-- rounds of the given environment while `cont` holds (at most `fuel`) -/
+def roundsWhile (n : Nat) (env : Env) (cont : State → Bool) : Nat → State → State
+  | 0, s => s
+  | fuel + 1, s => if cont s then roundsWhile n env cont fuel (freeze (n + 8) (round current n 5760 env s)) else s
+
+/-- `leaderdown=<off>`: fair rounds until the shared data is on chain; the leader is down while the others go on until the
+height is ValidUntilBlock + off of that data; the leader returns with an empty process state; fair rounds -/
+def runBootLeaderDown (n : Nat) (liveL : List Nat) (off : Int) : BootResult :=
+  let live := fun j => liveL.contains j
+  let s1 := roundsWhile n (fairEnv live 1000) (fun s => s.chain.txRec.isNone) 10 (State.init 10)
+  match s1.chain.txRec with
+  | none => ⟨false, 0, [], 0⟩
+  | some d =>
+    let target := (d.vub : Int) + off
+    let s2 := roundsWhile n (fairEnv (fun j => live j && j != 0) 1001) (fun s => (s.chain.height : Int) < target) 400 s1
+    bootLoop n live false true 200 0 0 s2
 
 def ascendingB : List Nat → Bool
   | a :: b :: r => a < b && ascendingB (b :: r)
@@ -68,10 +85,12 @@ def evalOp (ws : List String) : String :=
     match (kvOf rest "n").bind parseNat?, kvOf rest "live" with
     | some n, some lv =>
       let live := natList lv
-      let r := runBoot n live ((kvOf rest "lose") == some "1")
+      let r := match (kvOf rest "leaderdown").bind parseInt? with
+        | some off => runBootLeaderDown n live off
+        | none => runBoot n live ((kvOf rest "lose") == some "1")
       if r.designated then
         let signers := r.script.map (·.signer)
-        s!"HALT ret=designated nsigs={signers.length} within={signers.all live.contains} ordered={ascendingB signers} br=boot.designated.r{r.rounds}"
+        s!"HALT ret=designated nsigs={signers.length} within={signers.all live.contains} ordered={ascendingB signers} br=boot.designated{if (kvOf rest "leaderdown").isSome then ".after-leader-down" else ""}.r{r.rounds}"
       else if (kvOf rest "lose") == some "1" then "HALT ret=stalled br=boot.stalled.lost-designation"
       else "HALT ret=stalled br=boot.stalled"
     | _, _ => "bad-op"
